@@ -42,6 +42,18 @@ DISPOSED = ["E", ["disposed"]]
 FALSY_CANON = [canon(val(n)) for n in FALSY_NAMES]
 
 
+class EmptyErrors(Tagged):
+    """An aggregate-style exception that reports zero collected errors: a perfectly valid Exception whose
+    truth value is False (it defines __len__).  Used only by the dedicated 'falsy_error' checks."""
+
+    def __len__(self):
+        return 0
+
+
+def make_error(tag):
+    return EmptyErrors(tag) if tag == "falsy" else Tagged(tag)
+
+
 def cn_exc(e):
     if isinstance(e, DisposedException):
         return ["disposed"]
@@ -492,7 +504,7 @@ def run_history(kind, case, check_observers_state=False):
             got = _call(subj.on_next, val(cmd[1]))
             exp = m.cmd_next(cmd[1])
         elif op == "error":
-            got = _call(subj.on_error, Tagged(cmd[1]))
+            got = _call(subj.on_error, make_error(cmd[1]))
             exp = m.cmd_terminal(["E", ["exc", cmd[1]]])
         elif op == "completed":
             got = _call(subj.on_completed)
@@ -537,8 +549,11 @@ def run_history(kind, case, check_observers_state=False):
                 mo.fuzzy = None
             elif r.received != mo.received:
                 what = _diff_kind(mo.received, r.received)
+                sig = f"{kind}:received:{what}:{op}:{mo.beh['k']}"
+                if m.terminal == ["E", ["exc", "falsy"]]:
+                    sig = f"{kind}:received-after-falsy-error"  # one bucket: truth-tested exception field
                 return FAIL(
-                    f"{kind}:received:{what}:{op}:{mo.beh['k']}",
+                    sig,
                     f"step {idx} {cmd}: observer {oid} ({mo.beh}) expected {mo.received} got {r.received}; case={case}",
                     classes=_classes(m),
                 )
@@ -606,17 +621,20 @@ _DISPOSE = st.just(["dispose"])
 _ADV = st.builds(lambda d: ["adv", d], st.sampled_from([0, 0, 1, 1, 1, 2, 3, 5]))
 
 
-def commands(kind, active_only=False):
+def commands(kind, active_only=False, falsy_error=False):
     base = [_SUB] * 5 + [_NEXT] * 8 + [_UNSUB] * 2
     if kind == "replay":
         base = base + [_ADV] * 6
     if active_only:
         return st.one_of(*base)
-    term = [_ERROR, _COMPLETED, _DISPOSE]
+    term = [_ERROR] * 2 + [_COMPLETED] * 2 + [_DISPOSE]
+    if falsy_error:
+        term = [st.just(["error", "falsy"])] * 6 + [_ERROR, _COMPLETED]
     if kind == "async":
-        term = term + [_COMPLETED]
-    # terminals and dispose are rare: what follows them only exercises the late-subscriber / DisposedException clauses
-    return st.one_of(*(base * 2 + term))
+        term = term + [_COMPLETED] * 2
+    # terminals and (even more) dispose are rare: what follows them only exercises the late-subscriber /
+    # DisposedException clauses
+    return st.one_of(*(base * 4 + term))
 
 
 def configs(kind):
@@ -629,13 +647,13 @@ def configs(kind):
     return st.just({})
 
 
-def histories(kind, max_cmds):
+def histories(kind, max_cmds, falsy_error=False):
     """An 'active' prefix (no terminal, no dispose) followed by a general tail; one JSON list, shrinks as one value."""
     half = max(1, max_cmds // 2)
     cmds = st.builds(
         lambda a, b: a + b,
         st.lists(commands(kind, active_only=True), min_size=0, max_size=half),
-        st.lists(commands(kind), min_size=1, max_size=half),
+        st.lists(commands(kind, falsy_error=falsy_error), min_size=1, max_size=half),
     )
     return st.fixed_dictionaries({"cfg": configs(kind), "cmds": cmds})
 
